@@ -169,6 +169,24 @@ PROPS = {
         level_text="Every operation of every generated history is replayed on a list-of-pairs model and the complete observable list is compared afterwards.",
         level_note="trusted: the 60-line model in monitors/c12.cpp (self-tested per run); histories up to 40 ops",
     ),
+    "C17": dict(
+        legs=[dict(monitor="c17", config="asan", cases=K(100000, 10000000))],
+        rule="histories (2-32 calls, thorough 2-52) over a table of 4 URL handles, 3 search-params handles, 6 iterator slots and transient string lists / owned strings: "
+             "ada_parse / ada_parse_with_base (valid, invalid and arbitrary-byte inputs, embedded NUL, zero length), ada_copy, every setter and clear_*, every getter/predicate/"
+             "ada_get_components/ada_get_origin/host and scheme type after every step, ada_can_parse*, ada_idna_*, limit getters/setters, version functions, every search-params "
+             "function with iterators created before and advanced after mutations; each C return value is compared with the same call on a parallel C++ object; every handle, "
+             "list, iterator and owned string is released exactly once (ASan: double free / use after free / new[]-delete mismatch; LSan: leaks). The worker fails as inconclusive "
+             "if any function exported by include/ada_c.h was never driven. Non-trivial: history touching >= 2 handle kinds including a URL handle that holds a failed parse. "
+             "Distinct: hash of the op-name sequence.",
+        floors=dict(any={"histories_run": 10000, "c_calls_compared": 1000000, "calls_on_invalid_url_handles": 10000, "owned_strings_released": 10000, "iterators_created": 1000, "string_lists_released": 1000}),
+        assumptions=["the oracle is the C++ API itself (its conformance is the subject of the other properties)",
+                     "ada_strings_get is only called with an index below ada_strings_size (the header states no behaviour for other indices)",
+                     "an iterator handle is released before its search-params handle (using it afterwards would be a caller error)"],
+        technique="lockstep differential monitor (C handle vs parallel C++ object) over random call histories, handle life cycles judged by ASan/LSan",
+        level_text="Every exported C function is driven in random histories next to the C++ object it wraps and every returned byte, length, boolean and offset is compared; "
+                   "ownership errors surface as ASan/LSan reports.",
+        level_note="a defect shared by the C++ call and its wrapper is invisible here; function coverage is enforced from the header text",
+    ),
     "C16": dict(
         legs=[dict(monitor="idna", config="asan", name="idna:c16/asan", args=["--mode", "c16"], cases=K(300000, 30000000))],
         rule="pairs of domain spellings related by a generator-known equivalence (NFD form, reordering of adjacent marks with distinct non-zero ccc, ASCII case, "
